@@ -24,6 +24,7 @@ import (
 type epProv struct {
 	Addrs int    `json:"addrs"`
 	MD    string `json:"md"`
+	Self  bool   `json:"self"` // the entry names the advertisement's own provider
 }
 
 type shape struct {
@@ -84,6 +85,9 @@ func buildAd(s *shape) *schema.Advertisement {
 		ep := &schema.ExtendedProvider{Override: s.Ov}
 		for i, p := range s.Eps {
 			pr := schema.Provider{ID: ids.Peer(fmt.Sprintf("c13-ep-%d", i)).String(), Metadata: sized(p.MD, 64, 0xE0), Signature: []byte("epsig")}
+			if p.Self {
+				pr.ID = ad.Provider
+			}
 			for a := 0; a < p.Addrs; a++ {
 				pr.Addresses = append(pr.Addresses, fmt.Sprintf("/ip4/9.9.%d.%d/tcp/3000", i, a+1))
 			}
